@@ -5,6 +5,11 @@ resolver.go) as it is after the C16 fixes and the resource bounds of the C02 rep
 (maxInlineDepth, maxTableGridCells, maxCellSpan, maxListLevel): element order, run text,
 style -> heading level, list level, table grid. Core Lean only.
 
+Block-level containers (`w:sdt` / `w:sdtContent`, `w:customXml`) of the body and of a table
+cell are looked through by both passes (`decodeBlocks`, `isBlockContainer`; `blocksOfList`,
+`walkNode` below); the passes as they were before that repair are kept at the end
+(`walkNodeOld`, `parseBodyElementsInOrderOld`, `parseCellOld`, `elementsOld`).
+
 Inputs are the authored trees of word/document.xml and word/styles.xml; the
 XML tokenisation / struct mapping of encoding/xml is the parameter described in
 XmlTree.lean (fields match by local name; slices keep source order).
@@ -63,6 +68,44 @@ def containers : List Str :=
    [115, 100, 116, 67, 111, 110, 116, 101, 110, 116],        -- sdtContent
    [115, 109, 97, 114, 116, 84, 97, 103],                    -- smartTag
    [102, 108, 100, 83, 105, 109, 112, 108, 101]]             -- fldSimple
+
+/-- local names of the block-level containers `decodeBlocks` descends into and the second
+pass looks through (`isBlockContainer`, docx/document.go): a content control and its content
+element, a custom XML element -/
+def blockContainers : List Str :=
+  [[115, 100, 116],                                          -- sdt
+   [115, 100, 116, 67, 111, 110, 116, 101, 110, 116],        -- sdtContent
+   [99, 117, 115, 116, 111, 109, 88, 109, 108]]              -- customXml
+
+/-! ### decodeBlocks: the block-level children of the body / of a table cell -/
+mutual
+/-- what one child of the body (of a cell, of a block container) contributes to the block
+level: the block-level children of its content if it is a block container (`w:sdt`,
+`w:sdtContent`, `w:customXml` - the container is transparent), itself if it is any other
+element (it is offered to the `block` callback of `decodeBlocks`, which decodes it - `w:p`,
+`w:tbl`, `w:tcPr` - or has it skipped), nothing if it is character data -/
+def blocksOfNode : Node → List Node
+  | .text _ => []
+  | .elem tag attrs kids =>
+    if blockContainers.contains (localName tag) then blocksOfList kids
+    else [.elem tag attrs kids]
+/-- the block level of a list of children: document order, containers looked through -/
+def blocksOfList : List Node → List Node
+  | [] => []
+  | n :: rest => blocksOfNode n ++ blocksOfList rest
+end
+
+mutual
+/-- how deep the block containers of a child nest (anything but a container counts 0; what a
+`w:p`, a `w:tbl` or a skipped element holds is not `decodeBlocks`'s business) -/
+def blockNestNode : Node → Nat
+  | .text _ => 0
+  | .elem tag _ kids =>
+    if blockContainers.contains (localName tag) then blockNestList kids + 1 else 0
+def blockNestList : List Node → Nat
+  | [] => 0
+  | n :: rest => max (blockNestNode n) (blockNestList rest)
+end
 
 /-! ### paragraphXML.UnmarshalXML / decodeContent: runs in document order -/
 mutual
@@ -139,6 +182,32 @@ end
 
 /-- `paragraphXML.UnmarshalXML` succeeds on the paragraph -/
 def paraDecodes (p : Node) : Bool := (decodeList 0 p.kids).isSome
+
+mutual
+/-- `decodeBlocks(d, depth, block)` on one child, with the depth error: a block container is
+entered with `depth+1` - and the callee's first statement `if depth > maxInlineDepth { return
+error }` refuses it when `depth+1 > 10000` -, any other element is handed to `block` (whose
+own errors - a paragraph refused by `decodeContent` - are `paraDecodes`'s business). `none` =
+the error "block containers nested deeper than 10000 levels". -/
+def decodeBlocksNode (depth : Nat) : Node → Option (List Node)
+  | .text _ => some []
+  | .elem tag attrs kids =>
+    if blockContainers.contains (localName tag) then
+      (if depth + 1 > maxInlineDepth then none else decodeBlocksList (depth + 1) kids)
+    else some [.elem tag attrs kids]
+def decodeBlocksList (depth : Nat) : List Node → Option (List Node)
+  | [] => some []
+  | n :: rest =>
+    match decodeBlocksNode depth n with
+    | none => none
+    | some a =>
+      match decodeBlocksList depth rest with
+      | none => none
+      | some b => some (a ++ b)
+end
+
+/-- `decodeBlocks(d, 0, …)` reaches the end tag of the body / the cell without the depth error -/
+def blocksDecode (kids : List Node) : Bool := (decodeBlocksList 0 kids).isSome
 
 /-! ### extractRunText -/
 
@@ -440,14 +509,21 @@ def cellParaText (p : Node) : Str :=
   (runsOfList p.kids).flatMap fun run =>
     (runContent run).flatMap fun c => if c.loc == sT then chardata c.kids else []
 
+/-- the paragraphs of a cell (`tableCellXML.UnmarshalXML`): the `w:p` elements at the block
+level of the cell - its direct `w:p` children and those inside block containers, in document
+order. (Tables inside a cell have no field and are skipped, at any level.) -/
+def cellParas (tc : Node) : List Node := childrenNamed (blocksOfList tc.kids) sP
+
+/-- `parseCell` on the cell as `tableCellXML.UnmarshalXML` decoded it: `w:tcPr` and the `w:p`
+elements are taken from the block level of the cell (block containers are transparent) -/
 def parseCell (tc : Node) : Cell :=
-  let pr := (childNamed tc.kids sTcPr).map (·.kids) |>.getD []
+  let pr := (childNamed (blocksOfList tc.kids) sTcPr).map (·.kids) |>.getD []
   let span := boundedSpan (childVal pr sGridSpan)
   let vm := childNamed pr sVMerge
   let cont := match vm with
     | some v => v.attr sVal == [] || v.attr sVal == sContinue
     | none => false
-  let texts := ((childrenNamed tc.kids sP).map cellParaText).filter (· ≠ [])
+  let texts := ((cellParas tc).map cellParaText).filter (· ≠ [])
   { text := joinWith [10] texts, colSpan := span, rowSpan := 1, cont := cont }
 
 def parseRows (tbl : Node) : List (List Cell) :=
@@ -518,9 +594,89 @@ inductive Elem where
   | table (rows : List (List Cell))
 deriving Repr, Inhabited, BEq, DecidableEq
 
-/-- state of the second pass: `inBody`, `depth`, `paraIndex`, `tableIndex`, and the body
-elements found so far (a body element is kept as the unmarshalled node it was paired with) -/
+/-- state of the second pass: `inBody`, `depth`, `containers` (the open elements at depths
+1..`boxes` are block containers), `paraIndex`, `tableIndex`, and the body elements found so far
+(a body element is kept as the unmarshalled node it was paired with) -/
 structure Walk where
+  inBody : Bool
+  depth : Nat
+  boxes : Nat
+  pi : Nat
+  ti : Nat
+  acc : List Node
+deriving Repr, Inhabited
+
+/-- effect of a `StartElement` token: below the body an element is at block level when every
+element open between the body and it is a block container (`depth == containers+1`); a block
+container at block level is looked through, a `p` / `tbl` at block level is paired with the next
+unmarshalled paragraph / table, anything else and anything deeper is passed over -/
+def startTok (paras tbls : List Node) (loc : Str) (w : Walk) : Walk :=
+  if !w.inBody then
+    (if loc == sBody then { w with inBody := true, depth := 0, boxes := 0 } else w)
+  else
+    let w := { w with depth := w.depth + 1 }
+    if w.depth != w.boxes + 1 then w
+    else if blockContainers.contains loc then { w with boxes := w.depth }
+    else if loc == sP then
+      (match paras[w.pi]? with
+       | some p => { w with pi := w.pi + 1, acc := w.acc ++ [p] }
+       | none => w)
+    else if loc == sTbl then
+      (match tbls[w.ti]? with
+       | some t => { w with ti := w.ti + 1, acc := w.acc ++ [t] }
+       | none => w)
+    else w
+
+/-- effect of an `EndElement` token (`if depth == containers { containers-- }; depth--`) -/
+def endTok (w : Walk) : Walk :=
+  if !w.inBody then w
+  else if w.depth == 0 then { w with inBody := false }
+  else { w with depth := w.depth - 1, boxes := if w.depth == w.boxes then w.boxes - 1 else w.boxes }
+
+mutual
+/-- the decoder's token walk over a subtree: start token, children, end token -/
+def walkNode (paras tbls : List Node) : Node → Walk → Walk
+  | .text _, w => w
+  | .elem tag _ kids, w => endTok (walkList paras tbls kids (startTok paras tbls (localName tag) w))
+def walkList (paras tbls : List Node) : List Node → Walk → Walk
+  | [], w => w
+  | n :: rest, w => walkList paras tbls rest (walkNode paras tbls n w)
+end
+
+/-- `documentXML.Body`: the `body` child of the root -/
+def bodyOf (root : Node) : Option Node := childNamed root.kids sBody
+
+/-- `Body.Paragraphs` as `bodyXML.UnmarshalXML` collected them: the `w:p` elements at the block
+level of the body, in document order -/
+def bodyParas (body : Node) : List Node := childrenNamed (blocksOfList body.kids) sP
+
+/-- `Body.Tables`: the `w:tbl` elements at the block level of the body -/
+def bodyTables (body : Node) : List Node := childrenNamed (blocksOfList body.kids) sTbl
+
+/-- `parseBodyElementsInOrder`: body elements in the order of the second pass -/
+def parseBodyElementsInOrder (root : Node) : List Node :=
+  match bodyOf root with
+  | none => []
+  | some body =>
+    (walkNode (bodyParas body) (bodyTables body) root
+      { inBody := false, depth := 0, boxes := 0, pi := 0, ti := 0, acc := [] }).acc
+
+/-- `processElementsInOrder` on one body element -/
+def processElement (st : Styles) (n : Node) : Elem :=
+  if n.loc == sTbl then .table (parseTable n) else .para (processParagraph st n)
+
+/-- the reader's element list (`r.elements`) for a document and an optional styles part -/
+def elements (doc : Node) (styles : Option Node) : List Elem :=
+  (parseBodyElementsInOrder doc).map (processElement (stylesOf styles))
+
+/-! ### HISTORY: the readers before the block containers were made transparent
+
+`bodyXML` had the struct tags `xml:"p"` / `xml:"tbl"` and `tableCellXML` `xml:"p"`: only the
+DIRECT children were collected, and the second pass counted the direct children of the body
+only (`depth != 1 → continue`). Kept so that the old behaviour stays stated
+(`Props/C16.lean`: `body_interleave_old`, `docx_block_container_content_lost_pinned_counterexample`). -/
+
+structure WalkOld where
   inBody : Bool
   depth : Nat
   pi : Nat
@@ -528,8 +684,7 @@ structure Walk where
   acc : List Node
 deriving Repr, Inhabited
 
-/-- effect of a `StartElement` token -/
-def startTok (paras tbls : List Node) (loc : Str) (w : Walk) : Walk :=
+def startTokOld (paras tbls : List Node) (loc : Str) (w : WalkOld) : WalkOld :=
   if !w.inBody then
     (if loc == sBody then { w with inBody := true, depth := 0 } else w)
   else
@@ -545,60 +700,83 @@ def startTok (paras tbls : List Node) (loc : Str) (w : Walk) : Walk :=
        | none => w)
     else w
 
-/-- effect of an `EndElement` token -/
-def endTok (w : Walk) : Walk :=
+def endTokOld (w : WalkOld) : WalkOld :=
   if !w.inBody then w
   else if w.depth == 0 then { w with inBody := false }
   else { w with depth := w.depth - 1 }
 
 mutual
-/-- the decoder's token walk over a subtree: start token, children, end token -/
-def walkNode (paras tbls : List Node) : Node → Walk → Walk
+def walkNodeOld (paras tbls : List Node) : Node → WalkOld → WalkOld
   | .text _, w => w
-  | .elem tag _ kids, w => endTok (walkList paras tbls kids (startTok paras tbls (localName tag) w))
-def walkList (paras tbls : List Node) : List Node → Walk → Walk
+  | .elem tag _ kids, w => endTokOld (walkListOld paras tbls kids (startTokOld paras tbls (localName tag) w))
+def walkListOld (paras tbls : List Node) : List Node → WalkOld → WalkOld
   | [], w => w
-  | n :: rest, w => walkList paras tbls rest (walkNode paras tbls n w)
+  | n :: rest, w => walkListOld paras tbls rest (walkNodeOld paras tbls n w)
 end
 
-/-- `documentXML.Body`: the `body` child of the root; its `p` / `tbl` children are what
-`xml.Unmarshal` collected into `Body.Paragraphs` / `Body.Tables` -/
-def bodyOf (root : Node) : Option Node := childNamed root.kids sBody
-
-/-- `parseBodyElementsInOrder`: body elements in the order of the second pass -/
-def parseBodyElementsInOrder (root : Node) : List Node :=
+/-- `parseBodyElementsInOrder` before the repair: `Body.Paragraphs` / `Body.Tables` are the
+direct `p` / `tbl` children of the body, and only direct children are paired -/
+def parseBodyElementsInOrderOld (root : Node) : List Node :=
   match bodyOf root with
   | none => []
   | some body =>
-    (walkNode (childrenNamed body.kids sP) (childrenNamed body.kids sTbl) root
+    (walkNodeOld (childrenNamed body.kids sP) (childrenNamed body.kids sTbl) root
       { inBody := false, depth := 0, pi := 0, ti := 0, acc := [] }).acc
 
-/-- `processElementsInOrder` on one body element -/
-def processElement (st : Styles) (n : Node) : Elem :=
-  if n.loc == sTbl then .table (parseTable n) else .para (processParagraph st n)
+/-- `parseCell` before the repair: `w:tcPr` and the `w:p` elements are direct children of the cell -/
+def parseCellOld (tc : Node) : Cell :=
+  let pr := (childNamed tc.kids sTcPr).map (·.kids) |>.getD []
+  let span := boundedSpan (childVal pr sGridSpan)
+  let vm := childNamed pr sVMerge
+  let cont := match vm with
+    | some v => v.attr sVal == [] || v.attr sVal == sContinue
+    | none => false
+  let texts := ((childrenNamed tc.kids sP).map cellParaText).filter (· ≠ [])
+  { text := joinWith [10] texts, colSpan := span, rowSpan := 1, cont := cont }
 
-/-- the reader's element list (`r.elements`) for a document and an optional styles part -/
-def elements (doc : Node) (styles : Option Node) : List Elem :=
-  (parseBodyElementsInOrder doc).map (processElement (stylesOf styles))
+def parseTableOld (tbl : Node) : List (List Cell) :=
+  processVerticalMerges (limitTableGrid
+    ((childrenNamed tbl.kids sTr).map fun tr => (childrenNamed tr.kids sTc).map parseCellOld))
+
+def processElementOld (st : Styles) (n : Node) : Elem :=
+  if n.loc == sTbl then .table (parseTableOld n) else .para (processParagraph st n)
+
+/-- the reader's element list before the repair -/
+def elementsOld (doc : Node) (styles : Option Node) : List Elem :=
+  (parseBodyElementsInOrderOld doc).map (processElementOld (stylesOf styles))
 
 /-! ### `docx.Open`: `xml.Unmarshal` of document.xml may refuse the package -/
 
-/-- the paragraphs `xml.Unmarshal` decodes with `paragraphXML.UnmarshalXML` while it fills
-`documentXML`: the direct `w:p` children of the body and the `w:p` children of the cells
-(`w:tr` / `w:tc`) of its direct `w:tbl` children. Anything else (nested tables, text boxes,
-`w:sectPr`, …) has no struct field and is skipped without being decoded. -/
-def decodedParas (root : Node) : List Node :=
+/-- the cells `xml.Unmarshal` decodes with `tableCellXML.UnmarshalXML` while it fills
+`documentXML`: the `w:tc` children of the `w:tr` children of the tables at the block level of
+the body -/
+def decodedCells (root : Node) : List Node :=
   match bodyOf root with
   | none => []
   | some body =>
-    childrenNamed body.kids sP ++
-      (childrenNamed body.kids sTbl).flatMap fun tbl =>
-        (childrenNamed tbl.kids sTr).flatMap fun tr =>
-          (childrenNamed tr.kids sTc).flatMap fun tc => childrenNamed tc.kids sP
+    (bodyTables body).flatMap fun tbl =>
+      (childrenNamed tbl.kids sTr).flatMap fun tr => childrenNamed tr.kids sTc
 
-/-- `xml.Unmarshal(data, r.document)` succeeds: no decoded paragraph nests its inline
+/-- the paragraphs `xml.Unmarshal` decodes with `paragraphXML.UnmarshalXML`: the `w:p`
+elements at the block level of the body and at the block level of the cells of its tables.
+Anything else (nested tables, text boxes, `w:sectPr`, …) has no struct field and is skipped
+without being decoded. -/
+def decodedParas (root : Node) : List Node :=
+  match bodyOf root with
+  | none => []
+  | some body => bodyParas body ++ (decodedCells root).flatMap cellParas
+
+/-- the child lists `decodeBlocks` is run on: the body's and those of the decoded cells -/
+def decodedScopes (root : Node) : List (List Node) :=
+  match bodyOf root with
+  | none => []
+  | some body => body.kids :: (decodedCells root).map (·.kids)
+
+/-- `xml.Unmarshal(data, r.document)` succeeds: block containers nest at most `maxInlineDepth`
+deep in the body and in every decoded cell, and no decoded paragraph nests its inline
 containers deeper than `maxInlineDepth` -/
-def documentDecodes (root : Node) : Bool := (decodedParas root).all paraDecodes
+def documentDecodes (root : Node) : Bool :=
+  (decodedScopes root).all blocksDecode && (decodedParas root).all paraDecodes
 
 /-- `docx.Open` as far as the element list goes: `parseDocument` returns the error of
 `xml.Unmarshal` ("unmarshaling document.xml: inline containers nested deeper than 10000
